@@ -43,6 +43,8 @@ type c02Op struct {
 	Comment  string          `json:"comment,omitempty"`
 	// edit: also move the start to now + StartOff
 	MoveStart bool `json:"move_start,omitempty"`
+	// edit: flip the operator of the FlipOp-th matcher (mod count), 0 = no flip
+	FlipOp int `json:"flip_op,omitempty"`
 	// deliver
 	Msg int  `json:"msg,omitempty"` // index into the pool (mod size)
 	All bool `json:"all,omitempty"` // deliver B's full state instead
@@ -92,6 +94,11 @@ func genC02(t *rapid.T) c02Scenario {
 			op.Comment = rapid.SampledFrom([]string{"c1", "c2"}).Draw(t, "comment")
 			if rapid.IntRange(0, 4).Draw(t, "chm") == 0 {
 				op.Sets = genC02Sets(t) // changes matchers: replaces
+				created++
+			}
+			// flip the operator of one matcher, names and patterns unchanged (the silence must be replaced, not edited)
+			if op.Sets == nil && rapid.IntRange(0, 3).Draw(t, "flip") == 0 {
+				op.FlipOp = rapid.IntRange(1, 4).Draw(t, "flipAt")
 				created++
 			}
 			// move the start: a pending silence is edited in place (sooner or later), an active one is replaced
@@ -243,6 +250,25 @@ func execC02(sc c02Scenario) (res pbt.Result) {
 					EndsAt: timestamppb.New(now.Add(time.Duration(op.EndOff) * time.Second))}
 				if op.Sets != nil {
 					n.MatcherSets = c02ToPB(op.Sets)
+				}
+				if op.FlipOp > 0 {
+					var ms []*pb.Matcher
+					sets := make([]*pb.MatcherSet, len(cur.MatcherSets))
+					for si, set := range cur.MatcherSets {
+						cp := &pb.MatcherSet{}
+						for _, m := range set.Matchers {
+							c := &pb.Matcher{Type: m.Type, Name: m.Name, Pattern: m.Pattern}
+							cp.Matchers = append(cp.Matchers, c)
+							ms = append(ms, c)
+						}
+						sets[si] = cp
+					}
+					if len(ms) > 0 {
+						m := ms[(op.FlipOp-1)%len(ms)]
+						m.Type = map[pb.Matcher_Type]pb.Matcher_Type{pb.Matcher_EQUAL: pb.Matcher_NOT_EQUAL, pb.Matcher_NOT_EQUAL: pb.Matcher_EQUAL,
+							pb.Matcher_REGEXP: pb.Matcher_NOT_REGEXP, pb.Matcher_NOT_REGEXP: pb.Matcher_REGEXP}[m.Type]
+						n.MatcherSets = sets
+					}
 				}
 				if op.MoveStart {
 					n.StartsAt = timestamppb.New(now.Add(time.Duration(op.StartOff) * time.Second))
